@@ -405,6 +405,7 @@ class Server:
         # active script as ACTIVE, active, Active
         self.active_marker = b"ACTIVE"
         self.lookalike_texts = False
+        self.digest_shuffle = False
         self.users = users or {}
         self.scripts = dict(scripts or {})  # name(bytes) -> content(bytes), ordered
         self.active = active
@@ -442,7 +443,9 @@ class Server:
     # human-readable texts that look like protocol lines, sent as literals (RFC 5804 lets a
     # server word and encode its texts as it likes)
     LOOKALIKE_TEXTS = [b"OK, all fine", b'OK "fake"', b"OK", b"NO such luck", b'NO (X) "y"', b"BYE",
-                       b"OK\r\nOK", b'"SASL" "PLAIN"', b"{3}"]
+                       b"OK\r\nOK", b'"SASL" "PLAIN"', b"{3}",
+                       # human-readable text in a legacy charset (not valid UTF-8)
+                       b"Acc\xe8s refus\xe9", b"\xff\xfe denied", b"caf\xe9"]
 
     def final(self, kind, code=None, text=None):
         how = self.how()
@@ -565,6 +568,8 @@ class Server:
             if self.canned:
                 rep = self.canned.pop(0)
                 self.emit(rep)
+                if getattr(self, "eof_after_canned", False):
+                    self.eof = True  # the peer closes once this reply is delivered
                 m = re.search(rb"(?:^|\r\n)(OK|NO|BYE)", rep)
             else:
                 self.violation("more commands than canned replies: %s" % verb)
@@ -797,9 +802,18 @@ class Server:
         elif mech == "DIGEST-MD5":
             nonce = b"OA6MG9tEQGm2hh"
             self.sasl_state["nonce"] = nonce
-            ch = b'nonce="' + nonce + b'",qop="auth",algorithm=md5-sess,charset=utf-8'
+            # RFC 2831 fixes no order of the directives; qop may offer several values
+            parts = [b'nonce="' + nonce + b'"', self.rng.choice([b'qop="auth"', b'qop="auth,auth-int"']),
+                     b"algorithm=md5-sess", b"charset=utf-8"]
+            if self.rng.random() < 0.3:
+                parts.append(b"maxbuf=65536")
             if self.digest_realm is not None:
-                ch = b'realm="' + self.digest_realm + b'",' + ch
+                parts.append(b'realm="' + self.digest_realm + b'"')
+            if self.digest_shuffle:
+                self.rng.shuffle(parts)
+            else:
+                parts = ([parts[-1]] if self.digest_realm is not None else []) + parts[:4]
+            ch = b",".join(parts)
             self.sasl_state["realm"] = self.digest_realm
             self.emit(quoted(base64.b64encode(ch)) + CRLF)
         else:
